@@ -9,7 +9,7 @@ import (
 // Families of input data.
 var Families = []string{
 	"empty", "one", "zeros", "zeroprefix", "run", "random", "xx", "xgapx",
-	"text", "lowent", "periodic", "altseg", "ramp", "nearrep", "sandwich", "maxrun", "randzeros",
+	"text", "lowent", "periodic", "altseg", "ramp", "nearrep", "sandwich", "maxrun", "randzeros", "sandwich2", "noisyrep",
 }
 
 var words = []string{"the", "quick", "brown", "fox", "jumps", "over", "lazy", "dog", "compression", "dictionary",
@@ -104,6 +104,18 @@ func Data(r *prng.R, family string, n int) []byte {
 		copy(b[:q], text(r, q))
 		r.Bytes(b[q : n-q])
 		copy(b[n-q:], text(r, q))
+	case "sandwich2":
+		// as sandwich, but the incompressible middle contains sparse repeats of every length
+		// class (2..9, 10..17, 18..273) and repeated distances: the encoding attempt that the
+		// LZMA2 writer discards when it stores the chunk raw has then touched every part of
+		// the coder state (all length and distance coders, rep distances), and the text that
+		// follows uses all of them again
+		q := n / 4
+		copy(b[:q], text(r, q))
+		noisyRep(r, b[q:n-q])
+		copy(b[n-q:], text(r, q))
+	case "noisyrep":
+		noisyRep(r, b)
 	case "maxrun":
 		// periodic stretches of length p + 273*k + 1 between short pieces of text: a greedy
 		// encoder cuts its matches at the maximum length 273 and is left with a single
@@ -156,6 +168,26 @@ func Data(r *prng.R, family string, n int) []byte {
 		r.Bytes(b)
 	}
 	return b
+}
+
+// noisyRep fills b with random bytes in which, about every 5000 bytes, an earlier stretch is
+// repeated (length from every class of the length coder, sometimes at the distance of the
+// previous repeat): too few repeats to make the data compressible, enough to make an encoder
+// emit matches, rep matches and long lengths inside an incompressible chunk.
+func noisyRep(r *prng.R, b []byte) {
+	r.Bytes(b)
+	lastDist := 0
+	for i := 400; i < len(b); i += r.Range(2500, 7500) {
+		l := r.Pick(3, 5, 9, 10, 13, 17, 18, 19, 25, 40, 100, 273)
+		d := r.Range(1, min(i, 60000))
+		if lastDist > 0 && lastDist <= i && r.Chance(1, 3) {
+			d = lastDist
+		}
+		lastDist = d
+		for j := 0; j < l && i+j < len(b); j++ {
+			b[i+j] = b[i+j-d]
+		}
+	}
 }
 
 func text(r *prng.R, n int) []byte {
